@@ -532,6 +532,40 @@ pub fn run(rep: &mut Report, tier: &str)
         exhaustive &= complete;
         per.push(json!({"family": f.name, "graphs": family_size(&f), "graphs_done": stats.graphs.load(Ordering::SeqCst) - before, "goals": f.goals.len(), "input_orders": f.orders.len() + 1, "complete": complete}));
     }
+    // the same rule given twice (identical targets, sources and command), at every input position:
+    // still two rules claiming one target
+    {
+        let mut rcount = 0u64;
+        for n in 1..=3
+        {
+            let f = family_single(n, &["z"], 99);
+            for k in 0..family_size(&f)
+            {
+                let g = decode(&f, k);
+                for i in 0..n
+                {
+                    for pos in 0..=n
+                    {
+                        let mut g2 = g.clone();
+                        g2.insert(pos, g[i].clone());
+                        let orders = vec![(0..g2.len()).rev().collect::<Vec<_>>()];
+                        for goal in &f.goals
+                        {
+                            rcount += 1;
+                            stats.cases.fetch_add(1, Ordering::Relaxed);
+                            stats.rejected.fetch_add(1, Ordering::Relaxed);
+                            if let Some(msg) = check_one(&g2, goal, &orders)
+                            {
+                                let class = format!("{} (a rule given twice)", msg.split(|c: char| c == '[' || c == '{').next().unwrap_or("").trim());
+                                found.lock().unwrap().entry(class).or_insert((g2.clone(), goal.clone()));
+                            }
+                        }
+                    }
+                }
+            }
+        }
+        per.push(json!({"family": "every graph of 1..3 single-target rules with one rule repeated verbatim at every input position", "cases": rcount, "complete": true}));
+    }
     // parametric families: all goals incl. none and an absent one, reversed input order
     let mut pcount = 0u64;
     for (name, g) in parametric()
